@@ -144,6 +144,7 @@ func (x *Exec) rangeInit(st *State, fr *Frame, v *ssa.Range) Value {
 		st.LastOrd, st.LastPos = ord, pos
 		return &IterVal{Map: b.Obj, Pos: pos, Ord: ord, KeyT: mt.Key()}
 	case *Term:
+		st.LastPos = pos
 		return &IterVal{Str: b, Pos: pos}
 	}
 	panic(unsupported(fmt.Sprintf("range over %T", base)))
